@@ -52,8 +52,9 @@ def job_entry(order, K):
             amv = dict(mv); amv['ret'] = v
             if it_no <= K_ACC[0]:
                 aname = '%s/sign-change-within-accuracy[%d,it%d]' % (tag, pi, it_no); apre = pc + [fl * fr < 0, ACC <= hi - lo]
-                r = prove(aname, apre + [lo >= -10, hi <= 10] + [z3.And(x >= -10, x <= 10) for x in fv], z3.Or(*alts), 20000, amv, key=akey, tactic='nra')      # human-scale counterexample first
-                if r['status'] != 'candidate': r = prove(aname, apre + [lo >= -RV(1e90), hi <= RV(1e90)], z3.Or(*alts), 60000, amv, key=akey, tactic='nra')
+                t1, t2 = (20000, 60000) if it_no <= 1 else (10000, 20000)      # from iteration 2 on the clause is a known finding on the unchanged tree: short budgets there
+                r = prove(aname, apre + [lo >= -10, hi <= 10] + [z3.And(x >= -10, x <= 10) for x in fv], z3.Or(*alts), t1, amv, key=akey, tactic='nra')      # human-scale counterexample first
+                if r['status'] != 'candidate': r = prove(aname, apre + [lo >= -RV(1e90), hi <= RV(1e90)], z3.Or(*alts), t2, amv, key=akey, tactic='nra')
                 res.append(r)
     res.append(ob(tag + '/coverage', 'discharged' if nret and nexit else 'broken', detail='%d returning, %d exiting, %d cut-off paths' % (nret, nexit, ncut), key='C02/coverage'))
     return res
